@@ -116,6 +116,22 @@ CHECKS = {
         assumptions=["sub-millisecond timeouts are rounded up to 1 ms by the wire format (whole milliseconds)", "NATS without responder may answer SERVICE_NOT_AVAILABLE instead of TIMED_OUT"],
         design_ref="DESIGN.md §2 C13",
     ),
+    "C17": dict(
+        title="Op ids are unique and FContexts are safe to share and clone",
+        legs=[leg("TestC17Concurrent", quick=(150, 4), thorough=(3000, 12), race=True, timeout_s=3000, env={"GORACE": "halt_on_error=1"}, prefixes=["c17."]),
+              leg("TestC17Clone", quick=(1500, 2), thorough=(30000, 4), race=True, timeout_s=3000, env={"GORACE": "halt_on_error=1"})],
+        level="exploration",
+        technique="property-based testing (rapid) under the Go race detector: generated concurrent op schedules with a uniqueness/union oracle, and a model-based state machine for clone independence",
+        rule=("Concurrent leg: 2..32 goroutines x 1..30 ops each (NewFContext, Clone on FContextImpl / via frugal.Clone / on a foreign FContext / on the shared context, ReadRequestHeader, "
+              "Add/Read request+response headers, SetTimeout/Timeout, ephemeral properties, CorrelationID on one shared context); non-trivial: >=4 goroutines and >=2 op kinds. "
+              "Clone leg: up to 25 steps over a family of <=8 contexts rooted in an FContextImpl, a received context or a foreign implementation: clone, clone-of-clone, mutate any member; "
+              "non-trivial: >=1 clone and >=1 mutation. Distinct: sha256 of the schedule."),
+        level_text=("Exploration under -race (halt_on_error): every op id produced in the whole test process is pairwise distinct; after the concurrent phase the shared context holds exactly the union "
+                    "of the writes and its own op id; any data race aborts the run and is attributed to the running case; a clone starts equal except for a new op id and every later mutation is visible on exactly one context."),
+        level_note="Trusted: the Go race detector (sees races only in executed schedules); foreign FContext implementations are assumed to return copies from their getters like FContextImpl does.",
+        assumptions=["ephemeral property values are compared at map level (no deep copy of values is claimed)"],
+        design_ref="DESIGN.md §2 C17",
+    ),
 }
 
 NOT_APPLICABLE = [
